@@ -323,6 +323,11 @@ func (s *Server) startRecovered() (int, int, error) {
 // to invoke fsmSnapshot methods with concurrent calls to Apply.
 type fsmSnapshot struct {
 	*proto.MetadataSnapshot
+	// lastPublishedRaftIndex is the Raft index of the latest event published
+	// to the activity stream at the time of the snapshot. The PUBLISH_ACTIVITY
+	// entries that recorded it are compacted away with the snapshot, so it
+	// has to be carried by the snapshot itself.
+	lastPublishedRaftIndex uint64
 }
 
 // Persist should dump all necessary state to the WriteCloser sink and call
@@ -342,6 +347,14 @@ func (f *fsmSnapshot) Persist(sink raft.SnapshotSink) error {
 			return err
 		}
 		if _, err := sink.Write(b); err != nil {
+			return err
+		}
+
+		// Write the last published activity index as a trailer. Snapshots
+		// written before this trailer existed simply end after the data.
+		indexBuf := make([]byte, 8)
+		binary.BigEndian.PutUint64(indexBuf, f.lastPublishedRaftIndex)
+		if _, err := sink.Write(indexBuf); err != nil {
 			return err
 		}
 
@@ -411,10 +424,13 @@ func (s *Server) Snapshot() (raft.FSMSnapshot, error) {
 			Members:     protoMembers,
 		}
 	}
-	return &fsmSnapshot{&proto.MetadataSnapshot{
-		Streams: protoStreams,
-		Groups:  protoGroups,
-	}}, nil
+	return &fsmSnapshot{
+		MetadataSnapshot: &proto.MetadataSnapshot{
+			Streams: protoStreams,
+			Groups:  protoGroups,
+		},
+		lastPublishedRaftIndex: s.activity.LastPublishedRaftIndex(),
+	}, nil
 }
 
 // Restore is used to restore an FSM from a snapshot. It is not called
@@ -438,6 +454,11 @@ func (s *Server) Restore(snapshot io.ReadCloser) error {
 	snap := &proto.MetadataSnapshot{}
 	if err := snap.Unmarshal(buf); err != nil {
 		return err
+	}
+	// Read the last published activity index if the snapshot carries it.
+	indexBuf := make([]byte, 8)
+	if _, err := io.ReadFull(snapshot, indexBuf); err == nil {
+		s.activity.SetLastPublishedRaftIndex(binary.BigEndian.Uint64(indexBuf))
 	}
 
 	// Drop state and restore.
